@@ -3,7 +3,7 @@ import ast
 
 from ..cfg import witness
 from ..core import AnalysisError, u, walk_local
-from ..lib import construct, std_facts, def_of, copy_kind, returns_of, calls_of_node
+from ..lib import construct, std_facts, def_of, copy_kind, returns_of, calls_of_node, expand_expr
 from .wrapper import WrapperModel
 from .common import allowed_stores, instance_state, scope_copy_out
 
@@ -58,7 +58,7 @@ def run(ctx):
     okshape = bool(rets)
     detail = []
     for r in rets:
-      v = r.ast.value
+      v = expand_expr(facts3[r.id], r.ast.value) if r.ast.value is not None else None
       ev_true = ('c', 'self._evaluate', True) in facts3[r.id]
       ev_false = ('c', 'self._evaluate', False) in facts3[r.id]
       fn_attr = 'self._scoped_configurable_fn'
